@@ -363,11 +363,22 @@ def _set(rows, cond, col, val):
     return rows
 
 
+def _extra_item(rows, asm, comp):
+    sel = rows[(rows[:, 0] == asm) & (rows[:, 1] == comp)]
+    last = sel[sel[:, 4] == sel[:, 4].max()].copy()
+    last[:, 4] += 1
+    return np.vstack([rows, last])
+
+
 POWER_FILES = {
     'an assigned assembly is missing from the file': lambda r: _drop(r, lambda x: x[:, 0] == 2),
     'one pin is missing in one assembly': lambda r: _drop(r, lambda x: (x[:, 0] == 2) & (x[:, 1] == 1) & (x[:, 4] == 3)),
     'one pin has a different axial upper bound': lambda r: _set(r, lambda x: (x[:, 0] == 1) & (x[:, 1] == 1) & (x[:, 4] == 2), 3, 0.3),
     'duct cells have different axial bounds than pins': lambda r: _set(r, lambda x: (x[:, 0] == 1) & (x[:, 1] == 2), 3, 0.3),
+    'the last duct element is missing in one assembly (pins complete)': lambda r: _drop(r, lambda x: (x[:, 0] == 2) & (x[:, 1] == 2) & (x[:, 4] == x[(x[:, 0] == 2) & (x[:, 1] == 2), 4].max())),
+    'the last coolant subchannel is missing in one assembly (pins complete)': lambda r: _drop(r, lambda x: (x[:, 0] == 1) & (x[:, 1] == 3) & (x[:, 4] == x[(x[:, 0] == 1) & (x[:, 1] == 3), 4].max())),
+    'one duct element too many in one assembly (pins complete)': lambda r: _extra_item(r, 1, 2),
+    'one coolant subchannel too many in one assembly (pins complete)': lambda r: _extra_item(r, 2, 3),
     'negative constant pin power': lambda r: _set(r, lambda x: (x[:, 0] == 1) & (x[:, 1] == 1) & (x[:, 4] == 1), 5, -10.0),
     'pin index starts at 2': lambda r: _set(r, lambda x: (x[:, 0] == 1) & (x[:, 1] == 1) & (x[:, 4] == 1), 4, 8.0),
 }
@@ -380,7 +391,7 @@ def body_power_files(env):
     out, info = _pipeline(dict(spec), sweep=False)
     env.holds('the unmodified generated power file is accepted (witness)', out == 'accepted')
     for name, fn in POWER_FILES.items():
-        out, info = _pipeline(dict(spec, edit=_edit_power(fn)), sweep=False)
+        out, info = _pipeline(dict(spec, edit=_edit_power(fn)), sweep=True)
         env.holds('power file in which %s: ends with an error message' % name, out == 'rejected', key='malformed_power_file:' + name)
 
 
